@@ -74,7 +74,7 @@ impl<P: FwProp> Engine for FwEngine<P> {
     fn known_finding(&self, v: &Violation) -> Option<&'static str> {
         self.0.known_finding(v)
     }
-    fn known_finding_crash(&self, _k: u64, seed: u64, tier: Tier) -> Option<&'static str> {
+    fn known_finding_crash(&self, _k: u64, seed: u64, tier: Tier, _kind: &str) -> Option<&'static str> {
         self.0.known_finding_crash(seed, tier)
     }
 }
